@@ -139,7 +139,7 @@ structure Cfg where
 
 /-- The code as it stands in /repo (what the driver predicts).  Set `proper :=
 true` here once the repair of `topology/sprs.rs` is committed. -/
-def Cfg.current : Cfg := { proper := false }
+def Cfg.current : Cfg := { proper := true }
 
 /-- `&indices[*start..*end]` / `&data[*start..*end]` in the specialisation;
 `none` = slice-index panic. -/
